@@ -792,6 +792,13 @@ func ruleErrL2Scoped(c *Ctx, only func(*Func) bool) {
 			continue
 		}
 		ev := collectErrVars(p, f, true)
+		// error locals that came in with an inlined helper which has no error
+		// result: the helper handled them itself (E10 marks them)
+		for v := range ev.vars {
+			if handledSuffix.MatchString(v.Name()) {
+				delete(ev.vars, v)
+			}
+		}
 		d := &errL2{p: p, f: f, ev: ev, track: map[*types.Var]bool{}, errIdx: errIdx, viol: map[string]*l2viol{}}
 		for v := range ev.vars {
 			d.track[v] = true
